@@ -74,6 +74,7 @@ class Ctx:
     nested_probes = False
     strict = False     # also record the mechanism-level events (pop, filter output, queue snapshots) for MechTrace
     tt = 0             # the stack level the recorder believes is current (resumes are recognised by the state)
+    pending = False    # an incumbent was returned: the next pass starts the search for a better one
     base = None        # the statistics when the recorded call made its first consistency pass (None: not yet known)
     prior_stats = None # the statistics right after the earlier, unobserved call on the same solver object
 
@@ -203,6 +204,16 @@ def wrap_ca(alg, f):
             C.base = problems.user_stats(C.solver)
             if C.prior_stats is not None:
                 _emit({"k": "K", "d": 0, "base": list(C.base), "prior": list(C.prior_stats)})
+        if C.pending and not C.strict:
+            # the restart after an incumbent, READ FROM THE STATE when the next search begins (not from a hook inside
+            # reset / decrease_max / increase_min: an optimisation loop may prepare the new root elsewhere and install
+            # it at once): root level, every constraint enabled, initial domains except the tightened objective
+            C.pending = False
+            C.tt = _top()
+            val = C.lastsol[C.objvar] if C.lastsol is not None and 0 <= C.objvar < len(C.lastsol) else 0
+            _emit({"k": "N", "d": 0, "var": int(C.objvar), "val": int(val), "dir": C.mode, "box": _box(), "en": _en(),
+                   "top": _top()})
+        C.pending = False
         _sync()
         top = _top()
         e = {"k": "P", "alg": alg, "top": top, "in": _box(), "en": _en(), "trunc": False, "bc": [],
@@ -323,7 +334,8 @@ def wrap_reset(f):
         r = f(*a)
         if C.solver is not None:
             C.tt = _top()
-            _emit({"k": "Z", "d": 0, "box": _box(), "en": _en(), "top": _top()})
+            if C.strict:      # mechanism-level (drift-only) event; Layer A reads the restart from the state ("N")
+                _emit({"k": "Z", "d": 0, "box": _box(), "en": _en(), "top": _top()})
         return r
 
     return g
@@ -335,7 +347,7 @@ def wrap_tighten(f, direction):
     recorder saw when solve_one returned - only the resulting domains are observed."""
     def g(*a, **kw):
         r = f(*a, **kw)
-        if C.solver is not None:
+        if C.solver is not None and C.strict:
             val = C.lastsol[C.objvar] if C.lastsol is not None and 0 <= C.objvar < len(C.lastsol) else 0
             _emit({"k": "T", "d": 0, "var": int(C.objvar), "val": int(val), "dir": direction, "box": _box()})
         return r
@@ -348,6 +360,7 @@ def wrap_solve_one(f):
         r = f(*a)
         if C.solver is not None and C.mode != "solve":
             C.lastsol = None if r is None else [int(x) for x in r]
+            C.pending = r is not None       # the next consistency pass, if any, starts the search for a better solution
             _emit({"k": "I", "d": 0, "none": r is None, "sol": [] if r is None else [int(x) for x in r], "stats": _stats()})
         return r
 
@@ -466,6 +479,7 @@ def drive(item):
     C.cut = False
     C.base = None
     C.prior_stats = None
+    C.pending = False
     C.mode = mode
     C.objvar = int(item.get("var", -1)) if item.get("var") is not None else -1
     C.lastsol = None
